@@ -523,6 +523,15 @@ def run(eng, run):
     run.attempt(check_conn, eng, run)
     run.attempt(check_shared, eng, run)
     run.attempt(check_own_closing_flag, eng, run)
+    # what the request receivers drive: after a parse error the consumer holds no dead parser (the next request would be answered by a
+    # TypeError and the following ones dropped); the JSON framer skips inter-document whitespace (a chunk boundary before a newline must
+    # not produce a spurious error between two requests); a malformed request surfaces as a parse error, not as a crash of the consumer
+    from rules import c01, c06, c10
+    from sa.analyses.escape import EscapeSummaries
+    from sa.report import RuleAlias
+    run.attempt(c10.check_parser, eng, run, rule="C15.recv", dead_only=True)
+    run.attempt(c01.check_ws, eng, RuleAlias(run, "C15.recv"))
+    run.attempt(c06.check_escape, eng, RuleAlias(run, "C15.recv"), EscapeSummaries(eng))
     run.end_of_rules()
 
 
